@@ -62,7 +62,8 @@ def _ematch(hyps, g, axioms, timeout_ms):
         se.add(a_)
     se.add(*hyps)
     se.add(z3.Not(g))
-    return se.check() == z3.unsat
+    from .inst import guarded_check
+    return guarded_check(se, min(timeout_ms, 4000)) == z3.unsat
 
 
 def solve(hyps, goal, axioms=(), timeout_ms=10000, want_model=True):
@@ -111,13 +112,13 @@ def solve(hyps, goal, axioms=(), timeout_ms=10000, want_model=True):
         for h in hyps:
             s.add(h)
         s.add(z3.Not(g))
-        r = s.check()
-        if r == z3.unsat:
+        from .inst import cli_check
+        r, mtxt = cli_check(s, timeout_ms, want_model=True)
+        if r == "unsat":
             backends.add("full")
             continue
-        if r == z3.sat:
-            m = s.model()
-            return "refuted", "z3-" + z3.get_version_string(), time.time() - t0, (model_text(m) if want_model else None), m
+        if r == "sat":
+            return "refuted", "z3-" + z3.get_version_string(), time.time() - t0, mtxt[:6000], None
         # second opinion: cvc5 on the SMT-LIB text
         st2, secs2 = cvc5_check(s.to_smt2(), timeout_ms)
         if st2 == "unsat":
